@@ -46,6 +46,7 @@ type c17Scenario struct {
 	MatcherMs   int    `json:"matcher_ms"` // upper bound of the seeded per-callback delay
 	NonFatalPct   int  `json:"nonfatal_pct"`   // share of entries whose certificate parses with a non-fatal error
 	UnparsablePct int  `json:"unparsable_pct"` // share of entries that do not parse at all
+	Rescan        bool `json:"rescan,omitempty"` // the same Scanner runs Scan a second time over the same range
 }
 
 const c17MaxEntries = 1400
@@ -138,7 +139,9 @@ func genC17(seed uint64, tier string) any {
 	if sc.NonFatalPct+sc.UnparsablePct > 100 {
 		sc.UnparsablePct = 0
 	}
+	sc.Rescan = r.Chance(1, 6)
 	if r.Chance(1, 30) {
+		sc.Rescan = false
 		// more range requests than the scanner's internal queues hold: many single-entry batches
 		sc.TreeSize = r.Range(1001, 1300)
 		sc.Start, sc.MaxIndex, sc.Batch = 0, 0, 1
@@ -353,7 +356,7 @@ func execC17(t *testing.T, scAny any, keepLog bool) *Outcome {
 	var hits, found [c17MaxEntries]int32
 	var foundWrongIndex, foundWrongLeaf, bad int32
 	srv := &simLog{sc: sc}
-	var ret int64
+	var ret, ret2 int64
 	var scanErr error
 	returned := false
 	var simElapsed time.Duration
@@ -389,6 +392,9 @@ func execC17(t *testing.T, scAny any, keepLog bool) *Outcome {
 			}
 		}
 		ret, scanErr = s.Scan(onFound, onFound, updater)
+		if sc.Rescan && scanErr == nil {
+			ret2, scanErr = s.Scan(onFound, onFound, updater)
+		}
 		returned = true
 		simElapsed = time.Since(t0)
 	})
@@ -432,6 +438,8 @@ func execC17(t *testing.T, scAny any, keepLog bool) *Outcome {
 		o.Fail = Failf("c17.error", "Scan returned an error", "%v", scanErr)
 	case ret != int64(stop) && stop > sc.Start:
 		o.Fail = Failf("c17.return", "Scan did not return start index + entries processed", "returned %d, start %d, range end %d", ret, sc.Start, stop)
+	case sc.Rescan && ret2 != int64(stop) && stop > sc.Start:
+		o.Fail = Failf("c17.return", "Scan did not return start index + entries processed", "second Scan of the same Scanner returned %d (first %d), start %d, range end %d", ret2, ret, sc.Start, stop)
 	case bad != 0:
 		o.Fail = Failf("c17.matcher", "matcher was handed a certificate that is not a log entry", "%d calls", bad)
 	case foundWrongIndex != 0 || foundWrongLeaf != 0:
@@ -449,11 +457,14 @@ func execC17(t *testing.T, scAny any, keepLog bool) *Outcome {
 			want := int32(0)
 			if i >= sc.Start && i < stop && !(sc.PrecertOnly && !pre) && c17Kind(sc, i) != c17Unparsable {
 				want = 1
+				if sc.Rescan {
+					want = 2 // once per Scan
+				}
 			}
 			if hits[i] != want {
 				kind := "missed"
 				if hits[i] > want {
-					kind = "handed to the matcher more than once"
+					kind = "handed to the matcher more than once per Scan"
 				}
 				if want == 0 {
 					kind = "outside the scanned range (or filtered) but handed to the matcher"
@@ -462,8 +473,8 @@ func execC17(t *testing.T, scAny any, keepLog bool) *Outcome {
 				break
 			}
 			wantFound := int32(0)
-			if want == 1 && c17Verdict(sc, i) {
-				wantFound = 1
+			if want >= 1 && c17Verdict(sc, i) {
+				wantFound = want
 			}
 			if found[i] != wantFound {
 				o.Fail = Failf("c17.found", "found-callback disagrees with the matcher's verdict", "entry %d: found calls %d expected %d", i, found[i], wantFound)
